@@ -142,6 +142,46 @@ def window(ctx: Any) -> List[Ob]:
     return obs
 
 
+def deferred_timer_discipline(ctx: Any, R: str) -> List[Ob]:
+    """Invariant `a pending truncated-query timer for a source implies a non-empty deferred list for it`:
+    the timer is armed only after the packet was appended; every function that removes entries from the
+    deferred table cancels the timers it orphans, on every path; nothing else mutates the table.  Without it
+    the timer later answers an empty packet list (IndexError in a timer callback)."""
+    prog = ctx.prog
+    lst = prog.cls(LS)
+    obs: List[Ob] = []
+    hq = lst.methods['handle_query_or_defer']
+    cfg = cfg_of(hq.node)
+    arm = cfg.nodes_calling('call_at')
+    app = [n for n in cfg.nodes if any(call_name(c) == 'append' for c in n.calls())]
+    obs.append(ob(R, hq, 'deferred.append(msg) ... loop.call_at(...)', 'the deferral timer is armed only after the packet was stored', bool(arm) and all(cfg.dominated_by_any(a, app) for a in arm)))
+    for f in lst.methods.values():
+        me = f.params[0] if f.params else 'self'
+        fcfg = cfg_of(f.node)
+        removers = []
+        for n in fcfg.nodes:
+            for c in n.calls():
+                if isinstance(c.func, ast.Attribute) and self_attr(c.func.value, me) == '_deferred' and c.func.attr in ('pop', 'clear', 'popitem'):
+                    removers.append((n, c))
+            if n.kind == 'stmt' and isinstance(n.ast, ast.Delete) and any(isinstance(t, ast.Subscript) and self_attr(t.value, me) == '_deferred' for t in n.ast.targets):
+                removers.append((n, n.ast))
+            if n.kind == 'stmt' and isinstance(n.ast, ast.Assign) and any(self_attr(t, me) == '_deferred' for t in n.ast.targets) and f.name != '__init__':
+                removers.append((n, n.ast))
+        for n, c in removers:
+            def cancels(m: Any) -> bool:
+                for x in m.calls():
+                    if call_name(x) == '_cancel_any_timers_for_addr':
+                        return True
+                    if call_name(x) == 'cancel' and isinstance(x.func, ast.Attribute) and any(self_attr(y, me) == '_timers' for y in ast.walk(x.func.value)):
+                        return True
+                return False
+
+            before = any(cancels(m) and fcfg.dominates(m, n) for m in fcfg.nodes)
+            after = fcfg.must_pass_before_exit(n, cancels) is None
+            obs.append(ob(R, f, c, 'removing deferred packets of a source also cancels its pending timer (else the timer fires with nothing to answer)', before or after, '' if (before or after) else 'the timer handle is not cancelled on this path'))
+    return obs
+
+
 def _tsym(attrs: Dict[str, str]) -> Any:
     """Symbols for timing forms: the given attributes, and NOW for a read of the clock (locals are expanded first)."""
 
